@@ -1294,8 +1294,10 @@ public:
     std::vector<short int> matches(dim, 0); // counts how many times a row could be assigned.
     Scalar min;
     Scalar h;
-    size_t uMin, uSubMin;
+    Scalar uMin, uSubMin;
     Scalar v2;
+    // larger than any reduced cost
+    const Scalar big = std::numeric_limits<Scalar>::has_infinity ? std::numeric_limits<Scalar>::infinity() : std::numeric_limits<Scalar>::max();
     std::vector<Scalar> d(dim); // 'cost-distance' in augmenting path calculation.
 
     // Column reduction
@@ -1365,7 +1367,7 @@ public:
         // find minimum and second minimum reduced cost over columns.
         uMin = assignCost(i, 0) - v[0];
         j1 = 0;
-        uSubMin = static_cast<size_t>(-std::log(0));
+        uSubMin = big;
         for (j = 1; j < dim; j++)
         {
           h = assignCost(i, j) - v[j];
